@@ -18,7 +18,7 @@ RULE = ("Exhaustive: every sequence of length <=3 (thorough <=4) over 39 operati
         "initial pair lists; random sequences of length <=30 over 4 keys x 4 values with the icontract invariant armed on the real class; "
         "constructor forms; query strings with blanks, repeats, '+', %xx, non-ASCII. Non-trivial = a sequence containing at least one mutating "
         "operation applied to a key that has >=1 pair or creating a repeated key; exhaustive sequences are distinct by construction.")
-RULE += " Also: construction from one-shot iterables and from mappings of the other family classes, several mappings built from one list object (aliasing), falsy values ('', 0, None). A key alphabet of None, 0, the letter a and the tuple (a, 1); membership of a (key, value) pair that is not a key."
+RULE += " Also: construction from one-shot iterables and from mappings of the other family classes, several mappings built from one list object (aliasing), falsy values ('', 0, None). A key alphabet of None, 0, the letter a and the tuple (a, 1); membership of a (key, value) pair that is not a key. keys() / values() / items() view objects taken before each operation and read after it; mappings built with no argument or from empty inputs one after the other; a form read after close()."
 ASSUMPTIONS = [
     "the position of a re-assigned key's pair and which key popitem() removes are not pinned (any consistent choice accepted)",
     "update(mapping) assigns the mapping's single value per key (MutableMapping contract)",
@@ -214,6 +214,7 @@ def run_sequence(ctx, init, seq, alphabet, direct_invariant):
     m = MutableMultiMapping(list(init))
     model = list(init)
     for i, op in enumerate(seq):
+        held = (m.keys(), m.values(), m.items())  # view objects taken BEFORE the operation (they are views of the mapping, not snapshots)
         try:
             ret = apply_real(m, op)
         except contracts.MultiMapInvariantBroken:
@@ -240,6 +241,11 @@ def run_sequence(ctx, init, seq, alphabet, direct_invariant):
         if vp:
             ctx.violation(f"view|{vp}|after-{op[0]}", {"init": init, "ops": seq[:i + 1]}, f"items={real!r}")
             return
+        ctx.mon("views-held-across-the-operation")
+        for name, hv, now in zip(("keys", "values", "items"), held, (m.keys(), m.values(), m.items())):
+            if list(hv) != list(now) or len(hv) != len(now):
+                ctx.violation(f"view|{name}()-taken-before-the-operation-is-stale|after-{op[0]}", {"init": init, "ops": seq[:i + 1]}, f"held view {list(hv)!r}; fresh view {list(now)!r}")
+                return
 
 
 def nontrivial(init, seq):
@@ -272,6 +278,37 @@ def aliasing(ctx, pairs, rng):
         vp = views_problem(o, keep, "abzz")
         if vp:
             ctx.violation(f"aliasing|other-mapping-changed|{name}|{vp}", case, f"{o.multi_items()!r}")
+    return case
+
+
+def built_from_nothing(ctx, rng):
+    """mappings built with no argument (and from empty inputs), one after the other: what is put into one is not in the next"""
+    from baize.datastructures import FormData, MultiMapping, MutableMultiMapping, QueryParams
+    ctx.mon("built-from-nothing")
+    ops = build_ops("ab", (1, 2))
+    how = rng.choice(["no-argument", "None", "empty-list", "empty-dict", "empty-mapping"])
+    arg = {"no-argument": (), "None": (None,), "empty-list": ([],), "empty-dict": ({},), "empty-mapping": (MultiMapping(),)}[how]
+    first = MutableMultiMapping(*arg)
+    seq = [rng.choice(ops) for _ in range(rng.randrange(1, 5))]
+    for op in seq:
+        apply_real(first, op)
+    case = {"mappings_built_from": how, "ops_on_the_first": seq}
+    for name, cls in (("MutableMultiMapping", MutableMultiMapping), ("MultiMapping", MultiMapping), ("QueryParams", QueryParams), ("FormData", FormData)):
+        for a in (arg, ()):
+            try:
+                o = cls(*a)
+            except TypeError:
+                continue
+            vp = views_problem(o, [], "abzz")
+            if vp:
+                ctx.violation(f"aliasing|mapping-built-from-nothing-is-not-empty|{name}|{vp}", case, f"{list(o.multi_items())!r}")
+                return case
+    # ... and a form that was closed (its uploads released) still shows its fields
+    form = FormData([("a", "1"), ("b", "2"), ("a", "3")])
+    form.close()
+    vp = views_problem(form, [("a", "1"), ("b", "2"), ("a", "3")], "abzz")
+    if vp:
+        ctx.violation(f"view|{vp}|after-close-of-a-form", {"pairs": [("a", "1"), ("b", "2"), ("a", "3")]}, f"{list(form.multi_items())!r}")
     return case
 
 
@@ -372,7 +409,7 @@ def run(ctx):
     ops5 = build_ops(keys5, vals5)
     keys6, vals6 = (None, ("a", 1), 0, "a"), (1, None, "a")  # keys that are falsy, None, or a (key, value)-shaped tuple are keys like any other
     ops6 = build_ops(keys6, vals6)
-    for i in range(ctx.scale(3000, 200_000)):
+    for i in range(ctx.scale(1500, 200_000)):
         if i % 3 == 2:
             keys4, vals4, ops4 = keys5, vals5, ops5
         elif i % 6 == 1:
@@ -404,6 +441,9 @@ def run(ctx):
         ab = [(rng.choice("ab"), rng.choice((1, 2))) for _ in range(rng.randrange(0, 5))]
         acase = aliasing(ctx, ab, rng)
         ctx.case(("alias", repr(acase)))
+        if i % 4 == 1:
+            bcase = built_from_nothing(ctx, rng)
+            ctx.case(("nothing", repr(bcase)))
         if i < 1:
             ctx.sample("query-pairs", {"pairs": pairs})
 
